@@ -76,6 +76,14 @@ CHECKS.update({
 })
 
 CHECKS.update({
+    "C05": ("exploration",
+            "schedule enumeration and generation at lock granularity (patched parking_lot + controlled scheduler) with a linearizability checker (exhaustive memoised Wing-Gong search per document) over the recorded call/return history",
+            "2-3 client threads run programs of write / overwrite / delete / point read / read with metadata / bulk read / metadata read / exists / drain / search on two shared ids (one mirrored in the recent-write tier, one canonical-only with a warm L1a entry); every write carries a unique version in the vector AND the metadata. Part pairs: every ordered pair of single-operation programs (and the same pair preceded by a fresh write) on each id x 5 cache strategies x 3 engine shapes x EVERY single-preemption schedule (complete at bound 1; ~210k schedules). Part programs: generated programs x 1-4 generated preemptions. Oracles: a linearization exists per id (real-time order respected, reads return the latest write or absent), no read returns a version that was not written, vector and metadata of one read carry the same version; quiescent reads before and after a quiescent drain are appended to every history.",
+            "Scheduling points are lock operations and API-call boundaries: races on atomics between two lock operations are not interleaved. A delete's `existed` flag is not judged (the property constrains reads); writes returning Err may or may not take effect. Engine-level API (TieredEngine); the server's Query handler, which also assembles metadata and vector from two calls, is not driven under the scheduler.",
+            "DESIGN.md §3 C05, §2.5"),
+})
+
+CHECKS.update({
     "C14": ("exploration",
             "model-based property testing through the real server binary (reference count per tenant, admission oracle at the boundary) + racing client pairs followed by an admission probe",
             "Part sequence: one tenant with limit 3..6; generated Insert (new/existing/invalid), BulkInsert and BulkLoadHnsw (duplicates, existing+new, invalid items), Delete of present/absent ids, BatchDelete by ids (duplicates, foreign ids) and by filter, FlushHotTier, SIGTERM and SIGKILL restarts. After EVERY RPC: admission outcome vs model count, BulkQuery census == model, /usage vector_count == live count; at the end fill to the limit (each insert must be admitted) and one more must be RESOURCE_EXHAUSTED, so a drifted counter is visible through admission alone. Part race: two real clients race insert||delete, overwrite||batch-delete, bulk-insert||delete on the same ids for 150-650 rounds, then census + the same final probe.",
